@@ -39,6 +39,20 @@ def gen(ch, tier):
         for flt in plan['faults']:
             if flt['kind'] == 'stall':
                 flt['dur'] = ch.choice('bdur', (2, 7, 12)) * tcpcl_pair.SEC
+        if ch.coin('directed', 2, 3):
+            # the stall begins when one side starts a transfer that is larger than the socket buffer and goes out as one
+            # segment: everything that side has to say is queued behind the full socket when its keepalive deadline passes,
+            # and once the stall is over nothing but keepalives is left to send
+            side = ch.choice('dside', ('A', 'P'))
+            other = 'P' if side == 'A' else 'A'
+            for name in ('A', 'P'):
+                plan['cfg'][name]['keepalive_time'] = ch.choice('dka', (1, 2, 5))
+            plan['cfg'][side]['segment_size_tx_initial'] = 104857
+            plan['cfg'][side]['modulate_target_ack_time'] = None
+            plan['cfg'][other]['segment_size_mru'] = 10 * 1024**2
+            plan['ops'].append(dict(t=(3 + ch.pick('dt', 15)) * tcpcl_pair.SEC, node=side, op='send', len=plan['net']['tcp_capacity'] * ch.choice('dmul', (2, 3)), tag=900))
+            plan['faults'].append(dict(kind='stall', dir='a2b' if side == 'A' else 'b2a', dur=ch.choice('ddur', (7, 12)) * tcpcl_pair.SEC,
+                                       after=['dbus-signal', side, 1 + ch.pick('dnth', 2), 'send_bundle_started'], delay=0))
     # spread traffic over the horizon so that it races the timers
     for op in plan['ops']:
         if op['op'] == 'send' and 't' in op and ch.coin('late', 1, 2):
